@@ -28,7 +28,7 @@ RULE = ("cases = (entry point, authority?, segment sequence); non-trivial = the 
         "states = distinct resulting raw paths per shard.")
 ASSUMPTIONS = ["normalisation is a stack machine over segments, so sequences of <= 5 segments over all segment kinds cover its behaviours"]
 
-SEG = A.SEG
+SEG = A.SEG + ["a:b"]   # a later segment that would read as 'scheme:' if it became the first one of a rootless path
 PATH_LIT = pct.PCHAR + "/"
 
 
